@@ -340,6 +340,19 @@ func Program(t *rapid.T, f PFlags) Prog {
 		}
 		forms = append(forms, call("trace!", outer), call("trace!", sym("ld")))
 	}
+	if f.Bulk && Chance(t, "deepnest", 40) {
+		g.use("deep-nesting")
+		n := []int{90, 120, 160}[g.pick("deepn", 3)]
+		e := val.I(0)
+		for i := 0; i < n; i++ {
+			if i%2 == 0 {
+				e = call("+", val.I(1), e)
+			} else {
+				e = call("first", call("list", e))
+			}
+		}
+		forms = append(forms, call("trace!", e))
+	}
 	if f.Bulk && Chance(t, "bulk", 25) {
 		g.use("bulk-data")
 		n := []int{100, 300, 700}[g.pick("bulkn", 3)]
@@ -355,6 +368,13 @@ func Program(t *rapid.T, f PFlags) Prog {
 			}
 		}
 		forms = append(forms, call("trace!", call("count", val.V{K: val.List, L: append([]val.V{sym("list")}, xs...)})))
+	}
+	// the same occurrence of a name resolves outward on one call and, after a run-time def in the body, inward on the next
+	if Chance(t, "cond-def", 6) {
+		g.use("conditional-inner-def")
+		forms = append(forms, call("def", sym("cd"), val.I(0)),
+			call("def", sym("cdf"), call("fn", lst(sym("c")), call("if", sym("c"), call("def", sym("cd"), val.I(1+g.pick("cd1", 8)))), sym("cd"))),
+			call("trace!", call("list", call("cdf", val.B(false)), call("cdf", val.B(true)), call("cdf", val.B(false)), sym("cd"))))
 	}
 	// a macro that is re-defined between two evaluations of the same call site
 	if f.Macros && Chance(t, "macro-redef", 5) {
